@@ -41,9 +41,41 @@ pub fn case(ctx: &mut Ctx, cfg: &Cfg, data: &[u8], kind: &str) {
     ctx.line(&format!("ENC id={} rp=WIN checks=rt,window,header modes=- {} in={} comp={}", id, cfg.describe(), hex(data), hex(&out)));
 }
 
+/// The level is changed in the middle of the stream (after a flush, when the compressor looks idle):
+/// the header has already declared its window, so later matches must still respect it.
+pub fn level_change_case(ctx: &mut Ctx, cfg: &Cfg, a: &[u8], b: &[u8], flush1: u8, new_level: u8, raw_api: bool) {
+    use miniz_oxide::deflate::core::{compress, TDEFLFlush, TDEFLStatus};
+    let id = ctx.id();
+    let mut data = a.to_vec(); data.extend_from_slice(b);
+    let replay = format!("LVL {} split={} flush1={} newlevel={} rawapi={} in={}", cfg.describe(), a.len(), flush1, new_level, raw_api as u8, hex(&data));
+    ctx.eval(fnv(&data) ^ ((cfg.wb as u64) << 8) ^ ((new_level as u64) << 16) ^ 0x77);
+    ctx.count("level_change_cases");
+    let mut c = cfg.make();
+    let mut out = vec![0u8; data.len() * 2 + 2000];
+    let (st, i, mut n) = compress(&mut c, a, &mut out, flush_of(flush1));
+    if st != TDEFLStatus::Okay || i != a.len() { ctx.violation(id, "status", format!("first call {:?} consumed {}", st, i), replay); return; }
+    if raw_api { c.set_compression_level_raw(new_level); } else { c.set_compression_level(match new_level { 0 => miniz_oxide::deflate::CompressionLevel::NoCompression, 1 => miniz_oxide::deflate::CompressionLevel::BestSpeed, 9 => miniz_oxide::deflate::CompressionLevel::BestCompression, 10 => miniz_oxide::deflate::CompressionLevel::UberCompression, _ => miniz_oxide::deflate::CompressionLevel::DefaultLevel }); }
+    let (st, _, w) = compress(&mut c, b, &mut out[n..], TDEFLFlush::Finish);
+    n += w; out.truncate(n);
+    if st != TDEFLStatus::Done { ctx.violation(id, "status", format!("finish call {:?}", st), replay); return; }
+    let cinfo = (out[0] >> 4) as usize;
+    if cinfo <= 7 {
+        let ring = 1usize << (cinfo + 8);
+        let (rst, rout) = ring_decode(&out, ring);
+        if rst != TINFLStatus::Done || rout != data {
+            ctx.violation(id, "window", format!("after a level change: ring decoder of the declared window ({} bytes) returned {:?} (output equal: {}) [{}]", ring, rst, rout == data, cfg.describe()), replay.clone());
+        }
+    }
+    ctx.line(&format!("ENC id={} rp=LVL;split={};flush1={};newlevel={};rawapi={} checks=rt,window modes=- {} in={} comp={}", id, a.len(), flush1, new_level, raw_api as u8, cfg.describe(), hex(&data), hex(&out)));
+}
+
 pub fn run(ctx: &mut Ctx) {
     if let Some(lines) = ctx.replay_lines.clone() {
-        for l in lines { if let Some(rest) = l.strip_prefix("WIN ") { let kv = crate::kv(rest);
+        for l in lines { if let Some(rest) = l.strip_prefix("LVL ") { let kv = crate::kv(rest);
+            let cfg = Cfg { level: kv["level"].parse().unwrap(), strategy: kv["strategy"].parse().unwrap(), zlib: true, wb: kv["wb"].parse().unwrap() };
+            let data = crate::tx::unhex(&kv["in"]); let k: usize = kv["split"].parse().unwrap();
+            level_change_case(ctx, &cfg, &data[..k.min(data.len())], &data[k.min(data.len())..], kv["flush1"].parse().unwrap(), kv["newlevel"].parse().unwrap(), kv["rawapi"] == "1"); }
+          if let Some(rest) = l.strip_prefix("WIN ") { let kv = crate::kv(rest);
             let cfg = Cfg { level: kv["level"].parse().unwrap(), strategy: kv["strategy"].parse().unwrap(), zlib: true, wb: kv["wb"].parse().unwrap() };
             case(ctx, &cfg, &crate::tx::unhex(&kv["in"]), "replay"); } }
         return;
@@ -63,6 +95,18 @@ pub fn run(ctx: &mut Ctx) {
                 data = ctx.rng.bytes(n); let head = data[..300.min(n)].to_vec(); data.extend_from_slice(&head);
             }
             case(ctx, &cfg, &data, kind);
+        } }
+        // level raised in mid-stream, after a flush or with data pending
+        for wb in 8..=14u8 { for _ in 0..3 {
+            let cfg = Cfg { level: ctx.rng.range(0, 10) as u8, strategy: *ctx.rng.pick(&[0u8, 0, 1, 3, 4]), zlib: true, wb };
+            let na = ctx.rng.range(1, 400);
+            let a = ctx.rng.bytes(na);
+            let n = ctx.rng.range((1usize << wb) + 1, 33000);
+            let mut b = ctx.rng.bytes(n); let head = b[..300.min(n)].to_vec(); b.extend_from_slice(&head);
+            let flush1 = *ctx.rng.pick(&[2u8, 2, 3, 1, 0]);
+            let new_level = *ctx.rng.pick(&[6u8, 9, 10, 2, 1]);
+            let raw_api = ctx.rng.chance(1, 2);
+            level_change_case(ctx, &cfg, &a, &b, flush1, new_level, raw_api);
         } }
     }
 }
